@@ -132,6 +132,21 @@ func (w *World) doStake(in Intent) {
 			MinSelfDelegation: sdk.OneInt(), DelegatorAddress: acc.Addr.String(), ValidatorAddress: acc.ValAddr().String(), Pubkey: pkAny, Value: coin}
 		w.Submit("stake", acc, in.Net, map[string]string{"op": in.Op}, msg)
 		w.St.Fault("stake_new_validator")
+	case "recreate":
+		// a validator that was removed from staking (everything undelegated, unbonding over) is created again
+		// under the same operator address
+		if w.ReadState().Validator(v.Oper.ValAddr()) != nil {
+			return
+		}
+		pkAny, err := codectypes.NewAnyWithValue(v.Cons.PubKey())
+		if err != nil {
+			return
+		}
+		msg := &stakingtypes.MsgCreateValidator{Description: stakingtypes.Description{Moniker: "again"},
+			Commission:        stakingtypes.NewCommissionRates(sdk.ZeroDec(), sdk.ZeroDec(), sdk.ZeroDec()),
+			MinSelfDelegation: sdk.OneInt(), DelegatorAddress: v.Oper.Addr.String(), ValidatorAddress: v.Oper.ValAddr().String(), Pubkey: pkAny, Value: coin}
+		w.Submit("stake", v.Oper, in.Net, map[string]string{"op": in.Op}, msg)
+		w.St.Fault("stake_validator_recreated")
 	case "unjail":
 		w.Submit("stake", v.Oper, in.Net, map[string]string{"op": in.Op}, &slashingtypes.MsgUnjail{ValidatorAddr: v.Oper.ValAddr().String()})
 	}
@@ -141,9 +156,9 @@ func (w *World) doStake(in Intent) {
 
 // MutationFields lists, per event type, the fields the property C14 names.
 var MutationFields = map[string][]string{
-	"TransferToChainEvent":      {"coin", "amount", "fee", "sender", "receiver", "dest_chain", "height", "height_hi", "tx_hash", "type", "shift_coin_amount", "shift_dec_first", "shift_dec_last", "shift_amount_fee"},
+	"TransferToChainEvent":      {"coin", "amount", "fee", "fee_neg", "sender", "receiver", "dest_chain", "height", "height_hi", "tx_hash", "type", "shift_coin_amount", "shift_dec_first", "shift_dec_last", "shift_amount_fee"},
 	"SendToHubEvent":            {"coin", "amount", "sender", "receiver", "height", "height_hi", "tx_hash", "type", "shift_coin_amount", "shift_dec_first", "shift_dec_last"},
-	"BatchExecutedEvent":        {"coin", "batch_nonce", "batch_nonce_hi", "height", "height_hi", "tx_hash", "fee_paid", "fee_payer", "type"},
+	"BatchExecutedEvent":        {"coin", "batch_nonce", "batch_nonce_hi", "height", "height_hi", "tx_hash", "fee_paid", "fee_paid_neg", "fee_payer", "type"},
 	"SignerSetTxExecutedEvent":  {"set_nonce", "set_nonce_hi", "height", "height_hi", "tx_hash", "member_addr", "member_power", "member_power_hi", "type"},
 	"ContractCallExecutedEvent": {"scope", "inval_nonce", "inval_nonce_hi", "height", "height_hi", "tx_hash", "type"},
 }
@@ -185,6 +200,11 @@ func (w *World) Mutate(chain string, ev mhub2types.ExternalEvent, mut string) mh
 			c.Amount = c.Amount.Add(one)
 		case "fee":
 			c.Fee = c.Fee.Add(one)
+		case "fee_neg": // the same magnitude with the other sign (stateless validation only looks at the amount)
+			if c.Fee.IsNil() || c.Fee.IsZero() {
+				return nil
+			}
+			c.Fee = c.Fee.Neg()
 		case "sender":
 			c.Sender = flipHexChar(c.Sender, len(c.Sender)-1)
 		case "receiver":
@@ -315,6 +335,11 @@ func (w *World) Mutate(chain string, ev mhub2types.ExternalEvent, mut string) mh
 			c.ExternalHeight += 1 << 32
 		case "tx_hash":
 			c.TxHash = c.TxHash + "00"
+		case "fee_paid_neg":
+			if c.FeePaid.IsNil() || c.FeePaid.IsZero() {
+				return nil
+			}
+			c.FeePaid = c.FeePaid.Neg()
 		case "fee_paid":
 			if c.FeePaid.IsNil() {
 				c.FeePaid = one
